@@ -45,6 +45,7 @@ impl Model {
         if k == 0 {
           panic!("the Lean driver ended unexpectedly");
         }
+        crate::util::beat();
         answers.push(line.trim_end().to_string());
       }
       i += n;
